@@ -26,6 +26,9 @@ def run(ctx):
     g = gtirb_from_repo.load()
     n = 1500 if ctx.quick else 25000
     cases, env = gen_cases(ctx, g, n)
+    for tn_, why_ in getattr(env, "unbuildable", [])[:3]:
+        ctx.add("oracle", "encode-fails", "type %s is a type of the grammar, but a Python value of it cannot even be built: %s" % (tn_, why_), {"type_name": tn_})
+    ctx.count("types_without_python_value", len(getattr(env, "unbuildable", [])))
     reqs, meta = [], []
     hangs = 0
     for (t, v, env) in cases:
@@ -34,7 +37,7 @@ def run(ctx):
             continue
         tn = type_str(t)
         enc = impl_encode(g, v, tn)
-        vs = to_sx(v, env)
+        vs = to_sx(v, env, t)
         rec = {"tn": tn, "t": t, "v": v, "vs": vs, "enc": enc}
         for f in features(t, v):
             ctx.count("type:" + f)
@@ -48,8 +51,8 @@ def run(ctx):
             if dec[0] == "err" and dec[1] in ("HANG", "MemoryError"):
                 hangs += 1
             exp = canon(expected_after_roundtrip(t, v, env))
-            if dec[0] != "ok" or canon(to_sx(dec[1], env)) != exp:
-                got = dec[1] if dec[0] == "err" else canon(to_sx(dec[1], env))
+            if dec[0] != "ok" or canon(to_sx(dec[1], env, t)) != exp:
+                got = dec[1] if dec[0] == "err" else canon(to_sx(dec[1], env, t))
                 ctx.add("oracle", "roundtrip", "type %s: decode(encode(v)) != v" % tn,
                         {"type_name": tn, "value_sx": vs, "bytes": bs.hex(), "decoded": got, "expected": exp})
             # exact consumption: embedded before a sentinel and twice in a sequence
@@ -58,7 +61,7 @@ def run(ctx):
             if e2[0] == "ok":
                 d2 = impl_decode(g, e2[1], tn2, env)
                 ok2 = d2[0] == "ok" and isinstance(d2[1], tuple) and len(d2[1]) == 2 and d2[1][1] == SENT \
-                    and canon(to_sx(d2[1][0], env)) == exp and e2[1] == bs + SENT.to_bytes(8, "little")
+                    and canon(to_sx(d2[1][0], env, t)) == exp and e2[1] == bs + SENT.to_bytes(8, "little")
                 if not ok2:
                     ctx.add("oracle", "consumption", "type %s: value followed by a sentinel does not decode back" % tn,
                             {"type_name": tn2, "value_sx": vs, "bytes": e2[1].hex()})
@@ -67,7 +70,7 @@ def run(ctx):
             if e3[0] == "ok":
                 d3 = impl_decode(g, e3[1], tn3, env)
                 ok3 = d3[0] == "ok" and isinstance(d3[1], list) and len(d3[1]) == 2 \
-                    and all(canon(to_sx(x, env)) == exp for x in d3[1])
+                    and all(canon(to_sx(x, env, t)) == exp for x in d3[1])
                 if not ok3:
                     ctx.add("oracle", "consumption", "type %s: two copies in a sequence do not decode back" % tn,
                             {"type_name": tn3, "value_sx": vs, "bytes": e3[1].hex()})
@@ -121,7 +124,7 @@ def run(ctx):
                 mv, mrest, mre = m_dec[1], m_dec[2], model_result(m_dec[3])
                 # re-encoding the decoded value gives the original bytes back only inside the theorem's domain: a set / mapping holding
                 # both a node and the plain UUID naming it is written with a repeated element, which the decoder collapses
-                good = dec[0] == "ok" and canon(mv) == canon(to_sx(dec[1], env)) and mrest == 0 \
+                good = dec[0] == "ok" and canon(mv) == canon(to_sx(dec[1], env, rec["t"])) and mrest == 0 \
                     and mre[0] == "ok" and (bytes(mre[1]) == enc[1] or m_wt != 1)
             else:
                 good = dec[0] == "err" and dec[1] == m_dec[1]
@@ -142,6 +145,7 @@ def run(ctx):
     ctx.cov["traces_validated_against_impl"] = len(meta) + len(mal)
     cross_module_tables(ctx, g, ctx.rng, 6 if ctx.quick else 120)
     through_loaded_tables(ctx, g, cases, env)
+    mapping_in_hashable_position(ctx, g)
     import codec_cases as _cc
     for _k, _v in _cc.FORMS.items():
         ctx.count("encode_value_form:" + _k, _v)
@@ -229,12 +233,34 @@ def through_loaded_tables(ctx, g, cases, env0):
                 return tuple(back(y) for y in x)
             return x
         try:
-            same = canon(to_sx(back(got), env)) == canon(expected_after_roundtrip(t, v, env))
+            same = canon(to_sx(back(got), env, t)) == canon(expected_after_roundtrip(t, v, env))
         except Exception:  # noqa: BLE001
             same = False
         if not same:
             ctx.add("oracle", "roundtrip", "type %s: the value read from the table of a saved and loaded IR differs from the one stored" % tn,
                     {"type_name": tn, "value_sx": to_sx(v, env), "loaded": repr(got)[:300]})
+
+
+def mapping_in_hashable_position(ctx, g):
+    """Known finding (recorded, not repaired): a MAPPING as a set element or as a mapping key.  The grammar allows set<mapping<K,V>>
+    and mapping<mapping<K,V>,W> ("any nesting"), other producers can write such tables, but Python has no hashable mapping: the
+    decoder raises TypeError (sequences, sets and variants in these positions are handed out as tuples / frozensets / hashable
+    Variants since fix D13).  Reproduced from wire bytes on every run."""
+    one = (1).to_bytes(8, "little")
+    for tn, bs in (("set<mapping<uint8_t,uint8_t>>", one + one + b"\x01\x02"), ("mapping<mapping<uint8_t,uint8_t>,uint8_t>", one + one + b"\x01\x02" + b"\x09"),
+                   ("sequence<set<tuple<uint8_t,mapping<string,uint8_t>>>>", one + one + b"\x05" + one + one + b"k" + b"\x07")):
+        ctx.case("mapping-in-hashable-position:" + tn, True)
+        try:
+            v = g.AuxData.serializer.decode(bs, tn)
+            ctx.count("mapping_in_hashable_position_decoded")
+            buf = io.BytesIO()
+            g.AuxData.serializer.encode(buf, v, tn)
+            if buf.getvalue() != bs:
+                ctx.add("oracle", "roundtrip", "type %s: the decoded value %r is written back as %s, the bytes were %s" % (tn, v, buf.getvalue().hex(), bs.hex()), {"type_name": tn, "bytes": bs.hex()})
+        except TypeError as e:
+            ctx.add("oracle", "mapping-inside-set-or-key", "type %s: well-formed bytes cannot be decoded (%s)" % (tn, e), {"type_name": tn, "bytes": bs.hex()})
+        except Exception as e:  # noqa: BLE001
+            ctx.add("oracle", "roundtrip", "type %s: decoding well-formed bytes raises %s" % (tn, exc_name(g, e)), {"type_name": tn, "bytes": bs.hex()})
 
 
 def cross_module_tables(ctx, g, rng, n):
